@@ -567,7 +567,15 @@ pub fn gen_hist<W: Write>(prop: &str, r: &mut Rng, thorough: bool, out: &mut W) 
                     if round % 9 == 8 && fi == nfiles - 1 {
                         // refused: other k or other strand mode
                         if r.chance(1, 2) {
-                            let k2 = if k == 5 { 7 } else { k - 2 };
+                            // another k: next to this one, or on the other side of the 64/128-bit boundary
+                            // (the file then fails to load as the first file's integer type: a refusal of its own)
+                            let k2 = if r.chance(1, 2) {
+                                if k <= 31 { *r.pick(&[33usize, 35, 63]) } else { *r.pick(&[31usize, 29, 5]) }
+                            } else if k == 5 {
+                                7
+                            } else {
+                                k - 2
+                            };
                             let t2 = rand_table(r, k2, rc, 1, 3, "zz", 0, &[]);
                             ops.push(format!("merge/{}/{}/{}", t2.text(), k2, rc as u8));
                         } else {
